@@ -1,5 +1,6 @@
 """C17 — loading a VSS file (VSS family: generated documents + single-fault mutations)."""
 from .. import vss as VS
+from .. import common as C
 
 PID = "C17"
 FAM = 17
@@ -8,7 +9,7 @@ ALLOWED_AXIOMS = {"Classical_Prop.classic", "ClassicalDedekindReals.sig_not_dec"
                   "ClassicalDedekindReals.sig_forall_dec",
                   "FunctionalExtensionality.functional_extensionality_dep"}
 MANIFEST = {
-    "text": "Coq model of the VSS loader (Model/Vss.v: the entry tree as serde hands it over, typed extraction of min/max/allowed/default from JSON values incl. integer ranges and f64->f32 rounding via Flocq, recursive flattening into dot-joined paths, the ordered map, main.rs's start-up sequence on the broker model). Theorems: what is registered is exactly the sensor/attribute/actuator nodes reachable through branches, under the dot-joined names of their ancestors (soundness and completeness against an inductive reachability relation; branches never become signals); each entry carries the declared data type, entry type, description, comment, unit, change type (documented default otherwise) and the typed min/max/allowed/default; integers are taken over exactly and only inside the declared type's range, floats only when finite, other JSON kinds never; a leaf without data type or description, a branch without children, a node without valid type, or a min/max/allowed/default that does not fit rejects the whole document; an attribute's accepted default is its first value. Tied to the code on every run: generated documents (every data type incl. arrays, optional fields, boundary values, unknown keys) and single-fault mutations are loaded by vss::parse_vss_from_str and by the extracted model and diffed field by field; main.rs's add_entry/update_entries sequence is replayed on the real broker; an oracle that re-reads the JSON text with an independent parser compares the result with the declared ground truth.",
+    "text": "Coq model of the VSS loader (Model/Vss.v: the entry tree as serde hands it over, typed extraction of min/max/allowed/default from JSON values incl. integer ranges and f64->f32 rounding via Flocq, recursive flattening into dot-joined paths, the ordered map, main.rs's start-up sequence on the broker model). Theorems: what is registered is exactly the sensor/attribute/actuator nodes reachable through branches, under the dot-joined names of their ancestors (soundness and completeness against an inductive reachability relation; branches never become signals); each entry carries the declared data type, entry type, description, comment, unit, change type (documented default otherwise) and the typed min/max/allowed/default; integers are taken over exactly and only inside the declared type's range, floats only when finite, other JSON kinds never; a leaf without data type or description, a branch without children, a node without valid type, or a min/max/allowed/default that does not fit rejects the whole document; an attribute's accepted default is its first value. Tied to the code on every run: generated documents (every data type incl. arrays, optional fields, boundary values, unknown keys) and single-fault mutations are loaded by vss::parse_vss_from_str and by the extracted model and diffed field by field; main.rs's add_entry/update_entries sequence is replayed on the real broker; an oracle that re-reads the JSON text with an independent parser compares the result with the declared ground truth. Second part: the REAL databroker binary, built from /repo's working tree, is started on the document (--vss: main.rs read_metadata_file itself, which the in-process replay only mirrors) and read back through kuksa.val.v1 Get: the signals it serves, their data / entry types and initial values must be the model's, and are judged against the document.",
     "note": "Trusted: Coq kernel; Flocq's 4 standard-library axioms (f32 rounding); extraction + OCaml driver (vm_compute cross-check); harness/src/fam_vss.rs (replays read_metadata_file's loop, which lives in the binary crate's main.rs and cannot be called directly); vp/vss.py (generator, Python json as the independent parser). Modelled, not verified: JSON lexing and serde's derive glue (required / unknown / duplicate keys) - the model starts from the entry tree and is told per node which keys were present and valid; duplicate keys are not generated.",
 }
 RULE = ("seeded documents: a root branch with a generated tree (depth 1-4, fan-out 1-4, names sharing prefixes), leaves "
@@ -23,7 +24,7 @@ RULE = ("seeded documents: a root branch with a generated tree (depth 1-4, fan-o
         "values at the edge of the type; non-trivial = loaded document with at least two "
         "entries; distinct = distinct documents")
 TRUSTED = ["extraction: ExtrOcamlBasic only; driver ocaml/model_run.ml",
-           "correspondence harness: harness/src/fam_vss.rs (vss::parse_vss_from_str, then the add_entry / update_entries loop of main.rs)",
+           "correspondence harness: harness/src/fam_vss.rs (vss::parse_vss_from_str, then the add_entry / update_entries loop of main.rs; family 19: the real databroker binary spawned per document, read back over kuksa.val.v1 on loopback)",
            "python: vp/vss.py (document generator; ground truth re-read from the JSON text with Python's json module)"]
 ASSUMPTIONS = ["number classification follows serde_json: non-negative integers below 2^64 are u64, negative ones down to -2^63 are i64, everything else and every literal with a fraction or exponent is an f64 (correctly rounded: feature float_roundtrip, fix F26)",
                "a registration refused by the broker (invalid path name) is logged and skipped by main.rs; such names are not generated"]
@@ -67,3 +68,64 @@ def pretty(lines):
 
 def neighbours(lines, rng):
     return []
+
+
+class Loaded:
+    """the main part: vss::parse_vss_from_str and the start-up sequence replayed in process"""
+    FAM = 17
+    generate = staticmethod(generate)
+    monitor = staticmethod(monitor)
+    nontrivial = staticmethod(nontrivial)
+    histogram = staticmethod(histogram)
+    pretty = staticmethod(pretty)
+    neighbours = staticmethod(neighbours)
+
+
+class Binary:
+    """the REAL databroker binary started on the document (`--vss file`: main.rs read_metadata_file, the code the
+    in-process replay only mirrors) and read back through kuksa.val.v1 Get("**"): which signals it serves, their
+    data and entry types, the initial values.  The model's prediction is its family-17 output projected to that."""
+    FAM = 19
+    MODEL_FAM = 17
+    CROSS_MAX = 0
+    ENV = {"VERIF_DATABROKER_BIN": C.DATABROKER_BIN, "VERIF_WORK_DIR": C.WORK}
+
+    @staticmethod
+    def prepare():
+        rc, out = C.build_databroker_bin()
+        if rc != 0:
+            raise C.CheckFailure("the databroker binary does not build from /repo's working tree: " + out[-1500:])
+
+    @staticmethod
+    def generate(rng, tier):
+        n = 60 if tier == "quick" else 1500
+        cases = []
+        for i in range(n):
+            root, fault = VS.gen_case(rng)
+            cases.append(("b%d" % i, [VS.doc_line(root)]))
+        grid = VS.grid_cases(rng)
+        for j, (root, what) in enumerate(grid[:: max(1, len(grid) // (40 if tier == "quick" else 600))]):
+            cases.append(("bg%d" % j, [VS.doc_line(root)]))
+        return cases
+
+    @staticmethod
+    def compare(lines, m, i):
+        return VS.expected_binary(m) == VS.dec_binary(i) and not (i and i[0][0] < 0)
+
+    @staticmethod
+    def monitor(lines, out):
+        return VS.monitor_binary(lines, out)
+
+    @staticmethod
+    def nontrivial(lines, out):
+        return hash(tuple(lines[0])) if out and out[0][:1] == [0] and len(out) > 4 else None
+
+    @staticmethod
+    def histogram(lines, out):
+        return ["binary:" + ("served" if out and out[0][:1] == [0] else "refused" if out and out[0] == [1] else "other")]
+
+    pretty = staticmethod(pretty)
+    neighbours = staticmethod(neighbours)
+
+
+PARTS = [Loaded, Binary]
